@@ -51,6 +51,21 @@ theorem kept_deep {g : Graph} {tree : Nat → DTree} (hf : DeepFlags g tree) (pl
   rw [hf k op hop] at hdet
   exact (deep_iff _).mp hdet
 
+/-- Executable check of `DeepFlags`. -/
+def deepFlagsB (g : Graph) (tree : Nat → DTree) : Bool :=
+  (List.range g.nodes.length).all (fun p =>
+    match getOp g p with
+    | some op => op.deterministic == (tree p).deep
+    | none => true)
+
+theorem deepFlags_of_check {g : Graph} {tree : Nat → DTree} (h : deepFlagsB g tree = true) :
+    DeepFlags g tree := by
+  intro p op hop
+  unfold deepFlagsB at h
+  rw [List.all_eq_true] at h
+  have := h p (List.mem_range.mpr (getOp_lt hop))
+  simpa [hop] using this
+
 /-- Non-vacuity: `If{then: [If{then:[RandomUniform], else:[Neg]}], else: [Identity]}` is not
 deep-deterministic although its own flag and the flags at depth 1 are set. -/
 example : (DTree.node true [[.node true [[.node false []], [.node true []]]], [.node true []]]).deep
